@@ -31,7 +31,8 @@ case "$cmd" in
         case "$id" in C04) cfgs="gv plain oaa gv-oaa";; C02|C09) cfgs="gv gv-oaa";; *) cfgs="gv";; esac
         for c in $cfgs; do
           case "$c" in plain) F="";; gv) F="gvariant";; oaa) F="option-as-array";; gv-oaa) F="gvariant,option-as-array";; esac
-          ( cd "$S/engines/zv" && CARGO_TARGET_DIR="$S/target/zv-$c" cargo build --release --offline --features "$F" 2>&1 | grep -E "^error" -A 12 || true )
+          out=$( cd "$S/engines/zv" && CARGO_TARGET_DIR="$S/target/zv-$c" cargo build --release --offline --features "$F" 2>&1 | grep -E "^error" -A 12 || true )
+          if [ -n "$out" ]; then echo "$out"; echo "MACHINERY-FAILURE: build of zv ($c) failed; not running a stale binary"; exit 2; fi
           bins="$bins$c=$S/target/zv-$c/release/zv,"
         done
         if [ "$id" = C10 ]; then
@@ -47,7 +48,8 @@ case "$cmd" in
         ;;
       *)
         B="${ZB_BIN:-zb}"
-        ( cd "$S/engines/zb" && cargo build --release --offline --bin "$B" 2>&1 | grep -E "^error" -A 12 || true )
+        out=$( cd "$S/engines/zb" && cargo build --release --offline --bin "$B" 2>&1 | grep -E "^error" -A 12 || true )
+        if [ -n "$out" ]; then echo "$out"; echo "MACHINERY-FAILURE: build of zb failed; not running a stale binary"; exit 2; fi
         "$S/target/zb/release/$B" "$id" "$@"
         ;;
     esac
